@@ -44,6 +44,24 @@ Theorem C01_mpmcb_poll_and_others : forall c a f os,
   /\ (forall o, pushing o = false -> np s (fst (step s o))).
 Proof. intros c a f os. split; [intros; apply poll_structural | intros; apply np_step; assumption]. Qed.
 
+(* batch forms: try_send_batch / try_send_batch_mut accept a prefix of the input, in order, and hand
+   back (error / caller's vector) exactly the remaining suffix; try_recv_batch / try_recv_batch_mut
+   return a prefix of the queue (min(max, len) items, never an empty batch for max > 0) *)
+Theorem C01_mpmcb_batch_results : forall c a f os inplace h n,
+  let s := state_after c a f os in
+  batch_send_spec inplace s h n (fst (step s (TrySendBatch inplace h n))) (snd (step s (TrySendBatch inplace h n)))
+  /\ batch_recv_spec inplace s h n (fst (step s (TryRecvBatch inplace h n))) (snd (step s (TryRecvBatch inplace h n))).
+Proof.
+  intros c a f os inplace h n. split; [apply try_send_batch_spec, Inv_reachable | apply try_recv_batch_spec].
+Qed.
+
+Example C01_mpmcb_example_batch :
+  map o_res (snd (run (init 2 false no_fixes)
+     [TrySendBatch false 0 3; TryRecvBatch false 1 5; TrySendBatch true 0 0; TryRecvBatch true 1 0;
+      TryRecvBatch false 1 2; TrySendBatch true 0 3; TryRecvBatch true 1 1; Close 1; TrySendBatch false 0 2]))
+  = [RBErr 2 false [2]; RVals [0; 1]; RMOk 0 []; RNVals []; REmpty; RMOk 2 [5]; RNVals [3]; ROk; RBErr 0 true [6; 7]].
+Proof. vm_compute. reflexivity. Qed.
+
 (* non-vacuity: a history with a failed try_send (Full), a parked and a cancelled SendFuture, a steal *)
 Example C01_mpmcb_example :
   let r := run (init 1 true no_fixes)
